@@ -232,6 +232,9 @@ def guar_clauses(old, new, me) -> List[Tuple[str, z3.ExprRef, Tuple[str, ...]]]:
     cl.append(("G7.size-fixed", n.size.same(o.size), ("C01",)))
     cl.append(("G9.spawner-requests-stick", z3.ForAll([t], z3.Implies(z3.And(o.is_spawner(t), sel(o.creq, t)), sel(n.creq, t))), ("C07",)))
     cl.append(("G10.no-new-task-once-spawners-are-done", z3.Implies(old["closing2"].t, z3.ForAll([t], z3.Implies(sel(o.kind, t) == K_NONE, sel(n.kind, t) != K_WRAPPER))), ("C08",)))
+    j = z3.Int("j!q")
+    op_, np_ = old["_pools"], new["_pools"]
+    cl.append(("G11.pool-list-is-append-only", z3.And(np_.n >= op_.n, z3.ForAll([j], z3.Implies(z3.And(0 <= j, j < op_.n), z3.Select(np_.arrs[0], j) == z3.Select(op_.arrs[0], j)))), ("C11",)))
     cl.append(("G8.no-new-spawner-while-closing", z3.Implies(old["closing"].t, z3.ForAll([t], z3.Implies(sel(o.kind, t) == K_NONE, z3.Not(n.is_spawner(t))))), ("C08",)))
     return cl
 
@@ -655,6 +658,20 @@ class PoolTheory(Theory):
             return self.dict_method(st, fr, place, val, name, pos, kws, node)
         if isinstance(val, SetV):
             return self.set_method(st, fr, place, val, name, pos, kws, node)
+        if isinstance(val, SeqV) and name == "remove":
+            # list.remove(x): removes the first occurrence (ValueError if absent); the rest of the list shifts
+            if place is None:
+                raise Unsupported("remove on a detached list")
+            out = []
+            present = fresh("present", B)
+            for s2, b in ip.branch(st, present, "list-remove"):
+                if b:
+                    ip.place_set(s2, place, SeqV(val.n - 1, [fresh("shifted", a.sort()) for a in val.arrs], val.layout, val.mutable))
+                    s2.assume(val.n >= 1)
+                    out.append((s2, NoneV()))
+                else:
+                    out.append((s2, Exit(Exit.RAISE, ExcV("ValueError", []))))
+            return out
         if isinstance(val, SeqV) and name == "append":
             if place is None:
                 raise Unsupported("append on a detached list")
